@@ -11,6 +11,7 @@ R-SLERP: on every branch that evaluates the arccos, quaternion and vector slerp 
 b negated on the longer quaternion arc and vector lengths interpolated linearly (the arccos / SSE2 sine polynomials read as the functions they are certified to approximate).
 Not decided: numeric angle error near the parallel / anti-parallel thresholds, rotate_towards' angle arithmetic, from_rotation_arc(a, b) a = b."""
 import re
+import math
 import terms as tm
 from terms import ite
 import nf
@@ -444,13 +445,13 @@ def check_slerp(ctx, cfg, F, done):
             ctx.unverifiable('R-SLERP', cfg, name, 'operands / result lanes not found')
             continue
         lanes = [canon_c07(l) for l in lanes]
-        cases = split_cases(lanes)
+        cases = cases_with_assignment(lanes, 7)
         if cases is None:
             ctx.undecided('R-SLERP', cfg, name, 'too many selections')
             continue
         n_sph = 0
         bad = None
-        for ls in cases:
+        for asg, ls in cases:
             alg = nf.Algebra()
             alg.budget = 400000
             S = Spec(alg)
@@ -469,7 +470,34 @@ def check_slerp(ctx, cfg, F, done):
             dot = S.dot(a, b)
             ok = False
             tried = []
-            for sign in (1, -1):
+            # the branch conditions of this case: which arc (sign of a.b), and how close to parallel the lerp fallback starts
+            want_sign = None
+            zero_k = tm.fconst(0.0, 4)
+            for c_, v_ in asg.items():
+                if c_.op not in ('flt', 'fle') or len(c_.args) != 2:
+                    continue
+                x_, y_ = c_.args
+                kx, ky = (tm.f_of(x_) if tm.is_const(x_) else None), (tm.f_of(y_) if tm.is_const(y_) else None)
+                k = kx if kx is not None else ky
+                if k is None:
+                    continue
+                if k == 0.0 and is_quat:
+                    other = y_ if kx is not None else x_
+                    try:
+                        d_ = alg.nf(other)
+                    except ValueError:
+                        continue
+                    if S.eq(d_, dot) or S.eq(d_, S.neg(dot)):
+                        sg = 1 if S.eq(d_, dot) else -1
+                        reads_neg = (ky is not None) if sg == 1 else (kx is not None)      # the condition reads "a.b < 0"
+                        is_neg = v_ if reads_neg else not v_
+                        want_sign = -1 if is_neg else 1
+                elif 0.0 < abs(k) < 1.0 + 1e-9 and abs(k) > 0.25:
+                    if 1.0 - abs(k) > 1e-6:
+                        bad = 'the near-parallel fallback starts at |cos angle| > %r: arcs of up to %.3g rad are interpolated linearly instead of spherically' % (k, math.acos(min(1.0, abs(k))))
+            if bad:
+                break
+            for sign in ((want_sign,) if (is_quat and want_sign is not None) else (1, -1)):
                 if is_quat:
                     c = dot if sign == 1 else S.neg(dot)
                     bb = b if sign == 1 else [S.neg(x) for x in b]
@@ -608,6 +636,12 @@ def run(ctx):
                                 bad = 'guard %s is not a comparison of length^2 with bound^2' % tm.show(G, 0, 3)[:160]
                                 break
                             bd = [bd_ for bd_ in bounds if S.eq(alg.nf(other[0]), S.mul(alg.nf(bd_), alg.nf(bd_)))][0]
+                            # direction of the comparison: the minimum bound applies when length^2 < min^2, the maximum when max^2 < length^2
+                            len_first = S.eq(alg.nf(G.args[0]), len2)
+                            is_min = (mname == 'clamp_length_min') or (mname == 'clamp_length' and bd is bounds[0])
+                            if is_min != len_first:
+                                bad = 'the %s bound is applied when length^2 %s bound^2 (comparison reversed)' % ('minimum' if is_min else 'maximum', '>' if is_min else '<')
+                                break
                             k = S.div(alg.nf(bd), alg.sqrt_r(len2))
                             for i in range(len(a)):
                                 if not S.eq(alg.nf(vals[i]), S.mul(a[i], k)):
@@ -630,6 +664,16 @@ def run(ctx):
                             for o in outs:
                                 if not S.eq(S.dot(a, [alg.nf(x) for x in o]), S.c(0)):
                                     bad = 'a branch of any_orthogonal_vector is not orthogonal to self'
+                            # and it is not the zero vector: on the branch chosen when |p| < |q| the squared length is q^2 plus squares
+                            if not bad and g and g[0].op == 'flt' and all(x.op == 'fabs' for x in g[0].args):
+                                big = {True: g[0].args[1].args[0], False: g[0].args[0].args[0]}
+                                for truth, o in ((True, g[1]), (False, g[2])):
+                                    on = [alg.nf(x) for x in o]
+                                    bq = alg.nf(big[truth])
+                                    rest = S.sub(S.dot(on, on), S.mul(bq, bq))
+                                    if rest[1] != ONE or not (rest[0].is_zero() or alg._nonneg(rest[0])):
+                                        bad = 'on the branch taken when %s the result does not contain the larger component: it can be the zero vector for a non-zero self' % tm.show(g[0] if truth else tm.b_not(g[0]), 0, 3)[:120]
+                                        break
                         else:
                             if mname == 'any_orthonormal_pair':
                                 t = F.types[rty]
